@@ -41,7 +41,7 @@ func runC15(c *Ctx) {
 	c.L.Floor("C15.writer.forward-bound", 1)
 	c.L.Floor("C15.writer.no-wrap", 1)
 	c.L.Floor("C15.writer.offset-update", 2)
-	c.L.Floor("C15.writer.reports-len", 2)
+	c.L.Floor("C15.writer.reports-len", 1)
 
 	rd := c.fn("ioutil", "limitedReader.Read")
 	wr := c.fn("ioutil", "TruncatedWriter.Write")
